@@ -261,7 +261,7 @@ theorem kinetics_source :
     pyNbrOffsets = [(1, 0, 0), (-1, 0, 0), (0, 1, 0), (0, -1, 0), (0, 0, 1), (0, 0, -1)] ∧
     pyWrapMode = ["periodical", "periodical", "periodical"] ∧
     pyGridNbrBody = ["d_rates=compute_diffusion_rates(system,species,p,c,state,units_system)", "d+=(d_rates[1]-d_rates[0])"] ∧
-    pyAccumGrid = ["d=0", "d+=(rates[0]-rates[1])*(reaction.get_product_stoichiometry(species_label)-reaction.get_substrate_stoichiometry(species_label))",
+    pyAccumGrid = ["d=UnitValue(0,\"molecule/s\")", "d+=(rates[0]-rates[1])*(reaction.get_product_stoichiometry(species_label)-reaction.get_substrate_stoichiometry(species_label))",
       "d+=(d_rates[1]-d_rates[0])", "returnd.convert(units_system)"] ∧
     pyAccumGraph = pyAccumGrid ∧
     pyGraphNbrConds = ["j!=position", "system.space.get_edge(position,j)isnotNone"] ∧
